@@ -1,0 +1,23 @@
+//go:build verif
+
+package replica
+
+// VerifWalGarbageCollect runs one pass of the periodic write ahead log housekeeping of the manager
+// (what garbageCollectTask does on every tick: writeAheadLog.destroy of every database log) on the
+// caller's goroutine. Build tag verif only.
+func VerifWalGarbageCollect(m WriteAheadLogManager) bool {
+	mm, ok := m.(*writeAheadLogManager)
+	if !ok {
+		return false
+	}
+	mm.garbageCollect()
+	return true
+}
+
+// VerifSetRemoveDirFn replaces the function the write ahead log uses to remove directories
+// (fileutil.RemoveDir) and returns a function that restores the previous one. Build tag verif only.
+func VerifSetRemoveDirFn(fn func(path string) error) (restore func()) {
+	old := removeDirFn
+	removeDirFn = fn
+	return func() { removeDirFn = old }
+}
